@@ -48,6 +48,14 @@ def dump(project, model, sandbox, count=None):
             return g, qs
         except BobError as e:
             return "rejected", str(e)[:200]
+        except (KeyError, IndexError, AttributeError, TypeError, ValueError, AssertionError) as e:
+            if isinstance(e, AssertionError) and bob.DEBUG.get('pkgck'):
+                raise
+            # an internal error of Bob (not a harness problem: the harness only calls the public API here)
+            import traceback
+            tb = traceback.extract_tb(e.__traceback__)
+            inner = next((f for f in reversed(tb) if "/pym/bob/" in f.filename), tb[-1])
+            return "crashed", "%s: %s at %s:%d" % (type(e).__name__, str(e)[:100], os.path.basename(inner.filename), inner.lineno)
         finally:
             bob.input.PackageMatcher.touch = orig_touch
 
@@ -102,6 +110,11 @@ def run_case(ctx, case):
             projgen.render(m, C)
             cold = cold_dump(C, m, sb)
             where = "state %d (%s), sandbox=%s" % (n, desc, sb)
+            if "crashed" in (warm[0], cold[0]):
+                ctx.fail("internal-error", "%s: warm %r / cold %r" % (where, warm[:2] if warm[0] == "crashed" else "ok",
+                         cold[:2] if cold[0] == "crashed" else "ok"), case)
+                shutil.rmtree(C, ignore_errors=True)
+                continue            # (an already reported signature does not raise again)
             if (warm[0] == "rejected") != (cold[0] == "rejected"):
                 ctx.fail("rejected-only-with-or-without-caches", "%s: warm %r / cold %r" % (where, warm[:2] if warm[0] == "rejected" else "ok",
                          cold[:2] if cold[0] == "rejected" else "ok"), case)
@@ -121,7 +134,9 @@ def run_case(ctx, case):
                 ctx.fail("pkgck-assertion", "%s: --debug=pkgck: %s" % (where, e), case)
             finally:
                 bob.DEBUG['pkgck'] = False
-            if chk[0] != "rejected" and chk[0] != warm[0]:
+            if chk[0] == "crashed":
+                ctx.fail("internal-error", "%s: second warm run %r" % (where, chk[:2]), case)
+            elif chk[0] != "rejected" and chk[0] != warm[0]:
                 ctx.fail("graph-differs-second-warm-run", "%s: a second warm run differs: %s" % (where, first_diff(chk[0], warm[0])), case)
             by_recipe = {}
             for k, v in warm[0].items():
